@@ -92,6 +92,37 @@ func c13(p *Pkg, _ *Pkg, payload json.RawMessage, res *Result) {
 					bad("answers-without-handler", in, fmt.Sprintf("status %d notfound=%d handlers=%d", rec.Status, notFound, ran), "treated like any other path (not found)")
 				}
 			}
+			// overlapping requests: a second spec request runs to completion at every point where the first one
+			// touches its ResponseWriter (every schedule of two requests with the second one atomic)
+			if installed && stack == 0 {
+				calls := 0
+				count := &hookWriter{rec: NewRecorder(), hook: func() { calls++ }}
+				Catch(func() { api.ServeHTTP(count, NewRequest("GET", path, "", nil, nil)) })
+				for k := 1; k <= calls; k++ {
+					inner := NewRecorder()
+					n := 0
+					outer := &hookWriter{rec: NewRecorder()}
+					outer.hook = func() {
+						n++
+						if n == k {
+							Catch(func() { api.ServeHTTP(inner, NewRequest("GET", path, "", nil, nil)) })
+						}
+					}
+					pn := Catch(func() { api.ServeHTTP(outer, NewRequest("GET", path, "", nil, nil)) })
+					res.Count("requests", 2)
+					res.Count("overlap-schedules", 1)
+					in := fmt.Sprintf("GET %s twice: the second request served entirely at writer call #%d of %d of the first", path, k, calls)
+					if pn != "" {
+						bad("panic", in, pn, "")
+						continue
+					}
+					for name, rec := range map[string]*Recorder{"first": outer.rec, "second": inner} {
+						if rec.Status != 200 || string(rec.Body) != string(raw) {
+							bad("served-body-differs", in, fmt.Sprintf("%s request: status %d, %d bytes %q", name, rec.Status, len(rec.Body), firstN(string(rec.Body), 120)), fmt.Sprintf("200 and exactly the %d input bytes for both", len(raw)))
+						}
+					}
+				}
+			}
 			// near misses are ordinary paths
 			for _, near := range []string{path + "/", pl.Base + "/x" + pl.SpecName, "/" + pl.SpecName + "x"} {
 				if near == path {
@@ -108,4 +139,17 @@ func c13(p *Pkg, _ *Pkg, payload json.RawMessage, res *Result) {
 		}
 	}
 	res.Sample(map[string]any{"state": pl.State, "requests": res.Counters["requests"]})
+}
+
+// hookWriter forwards to a Recorder and calls hook before every ResponseWriter method.
+type hookWriter struct {
+	rec  *Recorder
+	hook func()
+}
+
+func (h *hookWriter) Header() http.Header { h.hook(); return h.rec.Header() }
+func (h *hookWriter) WriteHeader(c int)   { h.hook(); h.rec.WriteHeader(c) }
+func (h *hookWriter) Write(b []byte) (int, error) {
+	h.hook()
+	return h.rec.Write(b)
 }
